@@ -865,10 +865,10 @@ func main() {
 	}
 
 	bound := 2
-	deadline := 40
+	deadline := int(hx.Budget(40*time.Second) / time.Second)
 	if r.Thorough() {
 		bound = -1
-		deadline = 900
+		deadline = int(hx.Budget(900*time.Second) / time.Second)
 	}
 	var jobs []job
 	for i, sc := range scenarios(r.Thorough()) {
